@@ -234,6 +234,18 @@ def run(ctx):
             ctx.violation("one_sphere_cluster", {"meth": meth, "defect": d})
         else:
             ctx.trace_ok()
+        # an absorbing sphere, in water and in a denser medium (the relative index is complex / n_medium)
+        for nmed_ in (1.33, 1.5):
+            sa = Sphere(n=1.59 + 0.1j, r=0.45, center=(1.0, 1.2, 8.0))
+            kwa = dict(medium_index=nmed_, illum_wavelen=0.66, illum_polarization=(1, 0))
+            a = calc_field(pts, Spheres([sa]), theory=Multisphere(meth=meth, **tight), **kwa).values
+            b = calc_field(pts, sa, theory=Mie(False, True), **kwa).values
+            d = quant.reldiff(a, b)
+            ctx.case(("one_sphere_absorbing", meth, nmed_))
+            if d > 1e-4:
+                ctx.violation("one_sphere_cluster/absorbing", {"meth": meth, "medium_index": nmed_, "defect": d})
+            else:
+                ctx.trace_ok()
         # ... and with the radial field component switched on in both solvers (near field, oblique light)
         near = detector_points(x=np.array([0.3, 1.7, 2.9, 0.9]), y=np.array([0.2, 2.4, 0.8, 3.1]), z=6.0)
         kwr = dict(medium_index=1.33, illum_wavelen=0.66, illum_polarization=(math.cos(0.4), math.sin(0.4)))
